@@ -932,7 +932,7 @@ func genCase(r *vh.Rng) Case {
 			c.P = pick(r, []int64{1, 37, 0, -2})
 		}
 		c.Sf = "js"
-		if c.P >= 2 && c.P <= 36 && !math.IsNaN(x) && !math.IsInf(x, 0) && r.Chance(40) {
+		if c.P >= 2 && c.P <= 36 && c.P != 10 && !math.IsNaN(x) && !math.IsInf(x, 0) && r.Chance(40) {
 			c.Sf = "ftoa"
 		}
 	case "num":
